@@ -276,6 +276,8 @@ class SymInterp:
             return tuple(self.ev(x, env) for x in e.elts)
         if isinstance(e, ast.List):
             return [self.ev(x, env) for x in e.elts]
+        if isinstance(e, ast.Dict) and all(k is not None for k in e.keys):
+            return {self.ev(k, env): self.ev(v, env) for k, v in zip(e.keys, e.values)}
         if isinstance(e, ast.Attribute):
             v = self.ev(e.value, env)
             if isinstance(v, Blob):
@@ -329,6 +331,8 @@ class SymInterp:
             raise AnalysisError(f"operator in {unparse(e)} outside the fragment")
         if isinstance(e, ast.UnaryOp):
             v = self.ev(e.operand, env)
+            if isinstance(v, Blob) and not isinstance(e.op, ast.Not):
+                return Blob("neg")
             if isinstance(e.op, ast.Not):
                 return not v
             if isinstance(e.op, ast.USub):
